@@ -192,3 +192,374 @@ def audit_paths():
 if __name__ == "__main__":
     import json
     print(json.dumps(audit_paths(), indent=1, default=str))
+
+
+# ===========================================================================
+# Sequence / stream algebra (contracts/c05_theory.py, A-ALG / A-STREAMLAWS)
+# ===========================================================================
+# Reference interpretation:
+#   SEQ     finite Python tuples
+#   STREAM  ("fin", t) a finite stream, ("fail", t) the elements t then a
+#           failure, ("cyc", t) t repeated for ever (t non-empty)
+#   U       small integers, tuples (iterables as elements), boxed references
+#           ("box", r), and a few functions (Python callables)
+#   MS      collections.Counter (compared over the whole universe)
+#   SHUF / RRS / LAZYS are non-deterministic in the code; the laws must hold
+#   for EVERY behaviour the contracts allow, in particular for the
+#   deterministic ones used here (identity order; flatten in order; map in
+#   order), so a law failing under them is unsound.
+import collections
+
+
+class _Fn:
+    def __init__(self, name, f):
+        self.name, self.f = name, f
+
+    def __call__(self, x):
+        return self.f(x)
+
+    def __repr__(self):
+        return f"<{self.name}>"
+
+    def __eq__(self, o):
+        return isinstance(o, _Fn) and o.name == self.name
+
+    def __hash__(self):
+        return hash(self.name)
+
+
+F_ID = _Fn("id", lambda x: x)
+F_K0 = _Fn("const0", lambda x: 0)
+F_PAIR = _Fn("pair", lambda x: (x, x))          # element -> iterable
+F_EVEN = _Fn("even", lambda x: isinstance(x, int) and x % 2 == 0)
+NONE = "None"
+U_UNIV = [0, 1, 2, (), (0,), (1, 2), F_ID, F_K0, F_PAIR, NONE]
+SEQ_UNIV = [(), (0,), (1,), (0, 1), (2, 1, 0), ((0,), (1, 2)), ((), (0,))]
+STREAM_UNIV = [("fin", ()), ("fin", (0, 1)), ("fin", ((0,), (1, 2))),
+               ("fail", ()), ("fail", (1,)), ("cyc", (0, 1)), ("cyc", ((0,),))]
+INT_UNIV = [-1, 0, 1, 2, 3]
+
+
+def _app(f, x):
+    if isinstance(f, _Fn):
+        return f(x)
+    return ("app", repr(f), repr(x))      # unspecified: some fixed value
+
+
+def _elems(s, k):
+    """first k elements of a stream (fewer if it ends or fails earlier)"""
+    kind, t = s
+    if k <= 0:
+        return ()
+    if kind == "cyc":
+        return tuple(t[i % len(t)] for i in range(k))
+    return tuple(t[:k])
+
+
+def _as_stream(x):
+    if isinstance(x, tuple):
+        return ("fin", x)
+    raise Undefined()
+
+
+def _flats(s):
+    kind, t = s
+    if kind == "cyc":
+        inner = tuple(y for x in t for y in _iter(x))
+        if not inner:
+            raise Undefined()      # infinitely many empty iterables
+        return ("cyc", inner)
+    return (kind, tuple(y for x in t for y in _iter(x)))
+
+
+def _iter(x):
+    if isinstance(x, tuple):
+        return x
+    raise Undefined()
+
+
+def _maps(f, s):
+    kind, t = s
+    return (kind, tuple(_app(f, x) for x in t))
+
+
+def _cats(a, b):
+    ka, ta = a
+    kb, tb = b
+    if ka == "fin":
+        if kb == "cyc":
+            if not ta:
+                return b
+            raise Undefined()      # finite prefix + cycle: not representable
+        return (kb, ta + tb)
+    return a                       # a fails / never ends: b is never reached
+
+
+def _seqof(s):
+    if s[0] == "fin":
+        return s[1]
+    raise Undefined()
+
+
+def _nths(s, i):
+    e = _elems(s, i + 1)
+    if 0 <= i < len(e):
+        return e[i]
+    raise Undefined()
+
+
+def _drops(s, k):
+    kind, t = s
+    if k <= 0:
+        return s
+    if kind == "cyc":
+        r = k % len(t)
+        return ("cyc", t[r:] + t[:r])
+    if k > len(t):
+        raise Undefined()
+    return (kind, t[k:])
+
+
+def _ms(t):
+    return collections.Counter(t)
+
+
+def _mss(s):
+    if s[0] == "fin":
+        return _ms(s[1])
+    raise Undefined()
+
+
+SEQ_INTERP = {
+    "EMPTY": lambda: (), "EMPTYS": lambda: ("fin", ()),
+    "CAT": lambda a, b: a + b, "UNIT": lambda x: (x,),
+    "LEN": lambda a: len(a),
+    "NTH": lambda a, i: a[i] if 0 <= i < len(a) else (_ for _ in ()).throw(Undefined()),
+    "TAKE": lambda a, k: a[:k] if k >= 0 else (_ for _ in ()).throw(Undefined()),
+    "MAPQ": lambda f, a: tuple(_app(f, x) for x in a),
+    "FILT": lambda f, a: tuple(x for x in a if _app(f, x) is True),
+    "OFSEQ": lambda a: ("fin", a),
+    "CYC": lambda a: ("cyc", a) if len(a) >= 1 else ("fin", ()),
+    "CATS": _cats, "FIN": lambda s: s[0] != "cyc",
+    "FAILS": lambda s: s[0] == "fail", "SEQOF": _seqof, "NTHS": _nths,
+    "TAKES": lambda s, k: _elems(s, k) if k >= 0 else (_ for _ in ()).throw(Undefined()),
+    "DROPS": _drops, "MAPS": _maps, "FLATS": _flats,
+    "SHUF": lambda s, n: s, "RRS": lambda s, n: _flats(s),
+    "LAZYS": lambda f, s, n: _maps(f, s),
+    "MSS": _mss, "APP": _app,
+    "BOX": lambda r: ("box", r),
+    "UNBOX": lambda u: u[1] if isinstance(u, tuple) and len(u) == 2 and u[0] == "box" else (_ for _ in ()).throw(Undefined()),
+    "None_U": lambda: NONE,
+    "FOI": lambda f: F_ID if f == NONE else f,
+    "JDUMP": lambda x: ("json", repr(x)),
+}
+
+
+def _mapms(f, m):
+    out = collections.Counter()
+    for x, c in m.items():
+        out[_app(f, x)] += c
+    return out
+
+
+def _flatms(m):
+    out = collections.Counter()
+    for x, c in m.items():
+        for y in _iter(x):
+            out[y] += c
+    return out
+
+
+def _first_diff(f, g, xs):
+    for x in xs:
+        if _app(f, x) != _app(g, x):
+            return x
+    return 0
+
+
+def _allepochs(s, m):
+    if s[0] != "fin":
+        return False
+    t = s[1]
+    n = sum(m.values())
+    if n == 0:
+        return len(t) == 0
+    if len(t) % n:
+        return False
+    return all(_ms(t[i:i + n]) == m for i in range(0, len(t), n))
+
+
+SEQ_INTERP.update({
+    "MAPMS": _mapms, "FLATMS": _flatms,
+    "WITQ": lambda f, g, s: _first_diff(f, g, s),
+    "WITS": lambda f, g, s: _first_diff(f, g, _elems(s, 8)),
+    "WITM": lambda f, g, m: _first_diff(f, g, list(m)),
+    "ALLEPOCHS": _allepochs,
+})
+MS_UNIV = [collections.Counter(), collections.Counter([0, 1]),
+           collections.Counter([(0,), (1, 2)]), collections.Counter([1, 1])]
+
+
+def ev2(t, env, interp):
+    """like ev() with an interpretation table and sort-indexed universes;
+    Counters stand for multiset arrays"""
+    if z3.is_var(t):
+        return env[z3.get_var_index(t)]
+    if z3.is_quantifier(t):
+        n = t.num_vars()
+        doms = [_univ(t.var_sort(i)) for i in range(n)]
+        if any(d is None for d in doms):
+            raise KeyError("quantifier over an un-interpreted sort")
+        res = []
+        for combo in itertools.product(*doms):
+            e2 = {k + n: v for k, v in env.items()}
+            for i, v in enumerate(combo):
+                e2[n - 1 - i] = v
+            try:
+                res.append(bool(ev2(t.body(), e2, interp)))
+            except Undefined:
+                continue
+        return all(res) if t.is_forall() else any(res)
+    if z3.is_int_value(t):
+        return t.as_long()
+    if z3.is_true(t):
+        return True
+    if z3.is_false(t):
+        return False
+    k = t.decl().kind()
+    ch = t.children()
+    name = t.decl().name()
+    if k == z3.Z3_OP_AND:
+        und = False
+        for c in ch:
+            try:
+                if not ev2(c, env, interp):
+                    return False
+            except Undefined:
+                und = True
+        if und:
+            raise Undefined()
+        return True
+    if k == z3.Z3_OP_OR:
+        und = False
+        for c in ch:
+            try:
+                if ev2(c, env, interp):
+                    return True
+            except Undefined:
+                und = True
+        if und:
+            raise Undefined()
+        return False
+    if k == z3.Z3_OP_NOT:
+        return not ev2(ch[0], env, interp)
+    if k == z3.Z3_OP_IMPLIES:
+        if not ev2(ch[0], env, interp):
+            return True
+        return ev2(ch[1], env, interp)
+    if k == z3.Z3_OP_EQ:
+        return ev2(ch[0], env, interp) == ev2(ch[1], env, interp)
+    if k == z3.Z3_OP_DISTINCT:
+        vs = [ev2(c, env, interp) for c in ch]
+        return len({repr(v) for v in vs}) == len(vs)
+    if k == z3.Z3_OP_ITE:
+        return ev2(ch[1], env, interp) if ev2(ch[0], env, interp) \
+            else ev2(ch[2], env, interp)
+    if k == z3.Z3_OP_ADD:
+        return sum(ev2(c, env, interp) for c in ch)
+    if k == z3.Z3_OP_SUB:
+        vs = [ev2(c, env, interp) for c in ch]
+        return vs[0] - sum(vs[1:])
+    if k == z3.Z3_OP_MUL:
+        r = 1
+        for c in ch:
+            r *= ev2(c, env, interp)
+        return r
+    if k == z3.Z3_OP_LE:
+        return ev2(ch[0], env, interp) <= ev2(ch[1], env, interp)
+    if k == z3.Z3_OP_LT:
+        return ev2(ch[0], env, interp) < ev2(ch[1], env, interp)
+    if k == z3.Z3_OP_GE:
+        return ev2(ch[0], env, interp) >= ev2(ch[1], env, interp)
+    if k == z3.Z3_OP_GT:
+        return ev2(ch[0], env, interp) > ev2(ch[1], env, interp)
+    if k == z3.Z3_OP_SELECT:
+        a = ev2(ch[0], env, interp)
+        i = ev2(ch[1], env, interp)
+        if isinstance(a, collections.Counter):
+            return a[i]
+        if isinstance(a, dict):
+            return a.get(i, a.get("default"))
+        raise KeyError("select of an un-interpreted array")
+    if k == z3.Z3_OP_UNINTERPRETED:
+        if name in interp:
+            return interp[name](*[ev2(c, env, interp) for c in ch])
+    raise KeyError(f"no interpretation for {name}")
+
+
+ARR_INT_U = [{"default": 0, 0: 1, 1: 2}, {"default": (0,), 0: 0}]
+ARR_INT_INT = [{"default": 0, 0: 3, 1: 4}, {"default": 7}]
+
+
+def _univ(sort):
+    s = str(sort)
+    return {"Int": INT_UNIV, "U": U_UNIV, "SEQ": SEQ_UNIV,
+            "STREAM": STREAM_UNIV, "Array(U, Int)": MS_UNIV,
+            "Array(Int, U)": ARR_INT_U,
+            "Array(Int, Int)": ARR_INT_INT}.get(s)
+
+
+SEQ_INTERP["LSEQU"] = lambda a, n: tuple(a.get(i, a["default"]) for i in range(n)) if n >= 0 else (_ for _ in ()).throw(Undefined())
+SEQ_INTERP["LSEQR"] = lambda a, n: tuple(("box", a.get(i, a["default"])) for i in range(n)) if n >= 0 else (_ for _ in ()).throw(Undefined())
+
+
+def audit_algebra(contracts_dir, repo="/repo"):
+    """Evaluates every registry axiom all of whose symbols are interpreted;
+    returns a result dict (audited / skipped counts, failures)."""
+    from .contracts import Registry
+    from .engine import Engine
+    reg = Registry().load_dir(contracts_dir)
+    eng = Engine(reg, repo)
+    axs = eng.registry_axioms()
+    fails, skipped, n_inst, audited = [], [], 0, 0
+    for i, ax in enumerate(axs):
+        txt = reg.axioms[i].text[:160]
+        try:
+            if z3.is_quantifier(ax):
+                nv = ax.num_vars()
+                doms = [_univ(ax.var_sort(j)) for j in range(nv)]
+                if any(d is None for d in doms):
+                    raise KeyError("un-interpreted sort")
+                bad = None
+                for combo in itertools.product(*doms):
+                    env = {nv - 1 - j: v for j, v in enumerate(combo)}
+                    n_inst += 1
+                    try:
+                        ok = ev2(ax.body(), env, SEQ_INTERP)
+                    except Undefined:
+                        continue
+                    if not ok:
+                        bad = [repr(c)[:60] for c in combo]
+                        break
+                if bad:
+                    fails.append({"axiom": txt, "instance": bad})
+            else:
+                n_inst += 1
+                try:
+                    if not ev2(ax, {}, SEQ_INTERP):
+                        fails.append({"axiom": txt, "instance": []})
+                except Undefined:
+                    pass
+            audited += 1
+        except KeyError as e:
+            skipped.append((txt[:70], str(e)[:60]))
+    return {"check": "sequence / stream algebra axioms hold under the "
+                     "reference interpretation (tuples, finite / failing / "
+                     "cyclic streams, Counters); every interpretable axiom "
+                     "object of the contracts, brute-force instances",
+            "ok": not fails and audited > 0, "evaluations": n_inst,
+            "axioms_audited": audited, "axioms_skipped": len(skipped),
+            "skipped": skipped[:40],
+            "bound": f"{len(SEQ_UNIV)} sequences, {len(STREAM_UNIV)} streams, "
+                     f"{len(U_UNIV)} values, ints {INT_UNIV}",
+            "witness": fails[:5] or None}
